@@ -281,7 +281,7 @@ def run_shard(ctx):
         if ctx.time_left() < -180:
             ctx.inconc("time budget exhausted before the pair enumeration finished")
             break
-        cap = {"xsi": ctx.pick(300, 1000), "nsmap": ctx.pick(100, 500)}.get(g, ctx.pick(200, 600))
+        cap = {"xsi": ctx.pick(300, 400), "nsmap": ctx.pick(100, 250)}.get(g, ctx.pick(200, 250))  # (thorough: all ordered pairs of all operations, so smaller caps per pair)
         controlled_pair(ctx, a, b, g, 3, exp, max_runs=cap)
     n_pct = ctx.per_shard(ctx.pick(250, 6000))
     for _ in range(n_pct):
